@@ -227,7 +227,7 @@ func do(kv chord.KVProvider, g int, key string, i in) rec {
 // ---- one round ----------------------------------------------------------------------------
 
 type stats struct {
-	ops, partitions, overlaps, conflicts, races, appendRaces, leaseRaces atomic.Int64
+	ops, partitions, overlaps, conflicts, races, appendRaces, leaseRaces, listAnomalies atomic.Int64
 }
 
 var st stats
@@ -241,6 +241,83 @@ func transient(e string) bool {
 		}
 	}
 	return false
+}
+
+// listSnapshotAnomaly classifies a prefix history that porcupine rejected.
+// "yes": (a) the history without the PrefixList calls that overlap a mutation
+// (a listing that overlaps no append/remove cannot be torn and stays in) is
+// linearizable, and (b) every removed listing is element-wise plausible: each
+// returned child was successfully appended by a call invoked before the
+// listing returned, no child is returned twice, and each child that is missing
+// although a successful append of it had returned before the listing started
+// has a remove invoked before the listing returned. Then the only thing wrong
+// is that a listing is not an atomic snapshot (elements visited at different
+// instants). "no": anything else. "unknown": the checker timed out.
+func listSnapshotAnomaly(h []rec) (string, string) {
+	var rest, lists []rec
+	for _, x := range h {
+		torn := false
+		if x.In.Op == "list" {
+			for _, y := range h {
+				if (y.In.Op == "append" || y.In.Op == "remove") && x.Call < y.Ret && y.Call < x.Ret {
+					torn = true
+					break
+				}
+			}
+		}
+		if torn {
+			lists = append(lists, x)
+		} else {
+			rest = append(rest, x)
+		}
+	}
+	if len(lists) == 0 {
+		return "no", ""
+	}
+	ops := make([]porcupine.Operation, len(rest))
+	for i, x := range rest {
+		ops[i] = porcupine.Operation{ClientId: x.G, Input: x.In, Output: x.Out, Call: x.Call, Return: x.Ret}
+	}
+	switch porcupine.CheckOperationsTimeout(prefixModel, ops, 60*time.Second) {
+	case porcupine.Unknown:
+		return "unknown", ""
+	case porcupine.Illegal:
+		return "no", ""
+	}
+	var expl []string
+	for _, l := range lists {
+		if l.Out.Err != "" || strings.Contains(l.Out.Val, "<duplicate>") {
+			return "no", ""
+		}
+		got := parseSet(l.Out.Val)
+		for c := range got {
+			ok := false
+			for _, y := range h {
+				if y.In.Op == "append" && y.In.Arg == c && y.Out.Err == "" && y.Call < l.Ret {
+					ok = true
+				}
+			}
+			if !ok {
+				return "no", ""
+			}
+		}
+		for _, y := range h {
+			if y.In.Op != "append" || y.Out.Err != "" || y.Ret >= l.Call || got[y.In.Arg] {
+				continue
+			}
+			removed := false
+			for _, z := range h {
+				if z.In.Op == "remove" && z.In.Arg == y.In.Arg && z.Call < l.Ret {
+					removed = true
+				}
+			}
+			if !removed {
+				return "no", ""
+			}
+		}
+		expl = append(expl, fmt.Sprintf("[%d,%d] list -> {%s}", l.Call, l.Ret, l.Out.Val))
+	}
+	return "yes", strings.Join(expl, ", ")
 }
 
 func runRound(r *ev.Run, be string, kv chord.KVProvider, name string, rng *rand.Rand) {
@@ -449,7 +526,20 @@ func runRound(r *ev.Run, be string, kv chord.KVProvider, name string, rng *rand.
 			for _, x := range h {
 				lines = append(lines, fmt.Sprintf("[%d,%d] g%d %v -> %+v", x.Call, x.Ret, x.G, x.In, x.Out))
 			}
-			r.Violation("not-linearizable/"+be+"/"+space, name, fmt.Sprintf("%s: history of key %q (%s keyspace, %d ops from %d goroutines) is not linearizable: %s", be, h[0].Key, space, len(h), G, strings.Join(lines, " ; ")), lines)
+			key, why := "not-linearizable/"+be+"/"+space, ""
+			if space == "prefix" && be != kvlab.SQLite {
+				// memory (and AOF on top of it) list by iterating a live set: classify the
+				// anomaly that only a non-atomic iteration explains under its own key
+				switch snap, expl := listSnapshotAnomaly(h); {
+				case snap == "unknown":
+					r.Inconclusive(fmt.Sprintf("%s %s: checker timed out while classifying a non-linearizable prefix history", be, name))
+				case snap == "yes":
+					key += ":list-snapshot-not-atomic"
+					why = " [without the PrefixList calls that overlap a mutation the history is linearizable, and each of those listings is element-wise explainable: " + expl + "]"
+					st.listAnomalies.Add(1)
+				}
+			}
+			r.Violation(key, name, fmt.Sprintf("%s: history of key %q (%s keyspace, %d ops from %d goroutines) is not linearizable%s: %s", be, h[0].Key, space, len(h), G, why, strings.Join(lines, " ; ")), lines)
 		case porcupine.Ok:
 			if overlap > 4 && conf && sampled.Add(1) <= 4 {
 				sort.Slice(h, func(i, j int) bool { return h[i].Call < h[j].Call })
@@ -545,6 +635,7 @@ func main() {
 	r.Count("histories_checked", st.partitions.Load())
 	r.Count("overlapping_operation_pairs", st.overlaps.Load())
 	r.Count("documented_rejections_observed", st.conflicts.Load())
+	r.Count("prefix_histories_explained_by_non_atomic_listing", st.listAnomalies.Load())
 	r.Count("rounds_same_child_appended_by_all", st.appendRaces.Load())
 	r.Count("rounds_free_lease_acquired_by_all", st.leaseRaces.Load())
 	if st.overlaps.Load() == 0 {
